@@ -23,7 +23,7 @@ PROP = {
         "Wm.RouterLife.second_run_errors", "Wm.RouterLife.self_close_progress", "Wm.RouterLife.run_returned_means_closed",
         "Wm.RouterLife.cancel_winds_handlers_down", "Wm.RouterLife.runhandlers_nil_means_all_started",
         "Wm.RouterLife.runhandlers_error_is_retried", "Wm.RouterLife.other_handlers_keep_dispatching",
-        "Wm.RouterLife.loop_tail_waits_for_nobody",
+        "Wm.RouterLife.loop_tail_waits_for_nobody", "Wm.RouterLife.failed_run_leaves_running_open",
         "Wm.RouterLife.Old.started_before_stopfn_witness", "Wm.RouterLife.Old.watcher_lost_wakeup_witness",
     ],
     "tie_theorems": [],
@@ -37,7 +37,9 @@ PROP = {
             "Stop, wait Stopped, cancel Run ctx, Close, second Run} with 1..5 handlers (scripted subscribers whose Subscribe calls are "
             "counted; GoChannel for delivery right after Running()), handlers added before and after Run; Stop issued while RunHandlers is "
             "parked at runhandlers.started (right after Started() closed); a router started empty with the self-close watcher parked "
-            "before its select while the first handler is added; stop-one / stop-all / cancel families; a handler function gated beyond CloseTimeout while the router is closed by a caller / "
+            "before its select while the first handler is added; stop-one / stop-all / cancel families; a start-up in which one of three subscriptions is refused (Run returns the error, "
+            "Running() must be found open, a second Run is refused, a later RunHandlers starts all three); a second Run issued while the "
+            "first is inside a gated Subscribe (refused at once, bounded call; the first goes on normally; child process); a handler function gated beyond CloseTimeout while the router is closed by a caller / "
             "closes itself after cancel / after Stop of the last handler (the Close times out; Run must still return nil within the "
             "bound and a second Run is refused); Stop of a handler whose function is still busy while 3 messages each go to the other "
             "handlers (they must be handled, Stopped() of the stopped one must close, before the busy function is released); a scripted subscriber whose first Subscribe call(s) fail, then RunHandlers again (a RunHandlers "
